@@ -70,16 +70,21 @@ void ares_destroy(ares_channel_t *channel)
   ares_channel_lock(channel);
 
   /* Destroy all queries */
-  node = ares_llist_node_first(channel->all_queries);
-  while (node != NULL) {
-    ares_llist_node_t *next  = ares_llist_node_next(node);
-    ares_query_t      *query = ares_llist_node_claim(node);
+  /* Always take the first remaining node: a callback may re-enter the library
+   * and complete (and release) other queries, so no node pointer may be held
+   * across a callback. */
+  while ((node = ares_llist_node_first(channel->all_queries)) != NULL) {
+    ares_query_t        *query    = ares_llist_node_claim(node);
+    ares_callback_dnsrec callback = query->callback;
+    void                *arg      = query->arg;
 
+    /* Detach the query from every index and release it before invoking the
+     * callback, otherwise a re-entrant call made by the callback could find,
+     * complete and free this query a second time. */
     query->node_all_queries = NULL;
-    query->callback(query->arg, ARES_EDESTRUCTION, 0, NULL);
     ares_free_query(query);
 
-    node = next;
+    callback(arg, ARES_EDESTRUCTION, 0, NULL);
   }
 
   ares_queue_notify_empty(channel);
